@@ -90,11 +90,14 @@ func (server *Server) SMembers(conn *redis.Conn, key string) (*redis.Message, er
 	if err != nil {
 		return nil, err
 	}
-	_, set, err := db.GetSetRecord(key)
+	set, err := db.LookupSetRecord(key)
 	if err != nil {
 		return nil, err
 	}
 	arrayMsg := redis.NewArrayMessage()
+	if set == nil {
+		return arrayMsg, nil
+	}
 	array, _ := arrayMsg.Array()
 	for _, m := range set.Members() {
 		array.Append(redis.NewBulkMessage(m))
@@ -108,9 +111,16 @@ func (server *Server) SRem(conn *redis.Conn, key string, members []string) (*red
 	if err != nil {
 		return nil, err
 	}
-	_, set, err := db.GetSetRecord(key)
+	set, err := db.LookupSetRecord(key)
 	if err != nil {
 		return nil, err
 	}
-	return redis.NewIntegerMessage(set.Rem(members)), nil
+	if set == nil {
+		return redis.NewIntegerMessage(0), nil
+	}
+	removedMemberCount := set.Rem(members)
+	if len(set.Members()) == 0 {
+		db.RemoveRecord(key)
+	}
+	return redis.NewIntegerMessage(removedMemberCount), nil
 }
